@@ -2,9 +2,13 @@
 # Regenerates MANIFEST.json from the table below (kept in one place so the manifest stays valid).
 import json, subprocess
 CLAIMED = {
+ "C04": dict(
+   text="Ghost lock-set discipline and ordering contracts on the real code: the request is in the transaction table before WriteMessage is called (call-site assertion in WritePacket); every read/write/delete of the table happens with its mutex held (guarded_by obligations at each map access); the mutex is released on every path of WritePacket and parseAMFObject; lookup and delete of a response's transaction happen in one critical section and consume the entry exactly once; frames show the reader API and the writer API share only the guarded table.",
+   note="The verifier is sequential: 'no interleaving breaks matching and no data race' follows from these obligations by the standard argument that critical sections of one mutex are totally ordered and that the two APIs' frames are otherwise disjoint (DESIGN 2.4) - that last step is stated, not machine-checked. Map keys of type float64 are compared by bit pattern. Trusted: sync.Mutex model, govc, go/ssa, solvers.",
+   design="7/C04"),
  "C01": dict(
    text="Contracts on the real chunk writer helpers (type-0 and type-3 header generators against RTMP 5.3.1 incl. extended timestamps) and on the chunk reader: one payload step consumes exactly min(remaining, input chunk size) bytes and appends them (prefix preserved), a message is returned iff complete and never truncated, ReadMessage's loop is verified against a quantified invariant over the chunk-stream table (per-stream consistency and separation), and the peer's Set Chunk Size takes effect on the reader.",
-   note="PARTIAL: WriteMessage's chunking loop and the writer/reader step-compatibility lemma are not yet under contract; the whole-session induction is a paper argument over the per-step contracts; the handshake is not covered. Trusted: ghost-stream contracts of io.ReadFull/binary.Read/bufio, govc, go/ssa, solvers.",
+   note="PARTIAL: WriteMessage is verified for termination, transport-error propagation, exact output of single-chunk messages and own Set Chunk Size; the byte-exact multi-chunk layout and the writer/reader step-compatibility lemma are not under contract; the whole-session induction is a paper argument over the per-step contracts; the handshake is not covered. Trusted: ghost-stream contracts of io.ReadFull/binary.Read/bufio, govc, go/ssa, solvers.",
    design="7/C01"),
  "C02": dict(
    text="readBasicHeader against the three basic-header forms (all first bytes, exact consumption), readMessageHeader against RTMP 5.3.1.2/5.3.1.3: mandatory rejections (type 0 inside a message, length change, fresh stream not starting with type 0 except the librtmp ping), acceptance otherwise, field replacement/inheritance, timestamp rules for types 0-3 reduced to 31 bits, extended timestamp of type 0; frame conditions (only the addressed chunk stream's state and message change) and preservation of the reader-state invariant across ReadMessage.",
@@ -12,7 +16,7 @@ CLAIMED = {
    design="7/C02"),
  "C03": dict(
    text="Set Chunk Size, Window Acknowledgement Size, Set Peer Bandwidth and User Control packets: Size(), marshal layout, unmarshal acceptance and values over the full uint32/int32 ranges and all 65536 user-control event types (1/4/8-byte bodies) by bit-vector reasoning; User Control round-trip lemma with trailing data.",
-   note="PARTIAL: the AMF0 command packets (connect/createStream/publish/play/call), message-type and transaction dispatch and the reflection-based Expect* helpers are not under contract in this check. Trusted: govc, go/ssa, solvers.",
+   note="Command dispatch by name and _result/_error dispatch by transaction id (right response type, consumed once, error when unmatched) are under contract. PARTIAL: marshalling of the AMF0 command packets and the reflection-based Expect* helpers are not. Trusted: govc, go/ssa, solvers.",
    design="7/C03"),
  "C09": dict(
    text="Byte-exact FLV v1 layout contracts on the real muxer (13-byte header incl. PreviousTagSize0, 11-byte tag header, body, PreviousTagSize = 11+size) and demuxer (fields read at the stream head, exact advance by 13 / 11 / size+4, body never truncated, acceptance iff enough bytes), stated over ghost byte streams so they hold for every segmentation of the transport; plus the header+tag round-trip lemma through a real bytes.Buffer / bytes.Reader for every type, 32-bit timestamp and body below 2^24 bytes.",
